@@ -680,95 +680,97 @@ def fixedRow (cs : List Candle) (i : Nat) : Option Candle :=
 def tfsOf (cfg : Cfg) (sym : Nat) : List Nat :=
   (((cfg.routes ++ cfg.dataRoutes).filter (fun r => r.sym = sym ∧ r.tf ≠ 1)).map (·.tf)).eraseDups
 
-/-- one iteration `i` of `_step_simulator`; `inputs` are the (progressively fixed) per-symbol arrays -/
-def stepAt (fuel : Nat) (inputs : List (List Candle)) (e : Engine M) (i : Nat) : Engine M × List (List Candle) :=
-  if e.err.isSome then (e, inputs) else
-  let first := inputs.getD 0 []
-  let e0 := { e with time := ((first[i]?).map (·.ts)).getD 0 + 60000 }
-  -- add candles
-  let res := (List.range e.cfg.nsym).foldl (fun (acc : Engine M × List (List Candle)) sym =>
-    let (e, inputs) := acc
-    if e.err.isSome then acc else
-    let cs := inputs.getD sym []
-    match fixedRow cs i with
-    | none => (fail e .IndexError, inputs)
-    | some c =>
-      let cs' := cs.set i c
-      let inputs' := inputs.set sym cs'
-      let e1 := addCandle e sym 1 c
-      let e2 := simulateMinute u fuel e1 sym c
-      let e3 := (tfsOf e.cfg sym).foldl (fun (e : Engine M) (tf : Nat) =>
-        if (i + 1) % tf = 0 then
-          match Jesse.Gen.generateCandle tf (Py.slice cs' (some ((i : Int) - ((tf : Int) - 1))) (some ((i : Int) + 1))) False with
-          | .ok g => addCandle e sym tf g
-          | .error k => fail e k
-        else e) e2
-      (e3, inputs')) (e0, inputs)
-  let e1 := res.1
-  -- execute routes
+/-- the per-symbol part of iteration `i` of `_step_simulator`: fix the jump of row `i` (in place), store the
+    1m candle, match the orders, generate the larger timeframes whose window ends at `i` -/
+def symStep (fuel : Nat) (i : Nat) (acc : Engine M × List (List Candle)) (sym : Nat) : Engine M × List (List Candle) :=
+  if acc.1.err.isSome then acc else
+  match fixedRow (acc.2.getD sym []) i with
+  | none => (fail acc.1 .IndexError, acc.2)
+  | some c =>
+    let cs' := (acc.2.getD sym []).set i c
+    let e1 := addCandle acc.1 sym 1 c
+    let e2 := simulateMinute u fuel e1 sym c
+    let e3 := (tfsOf acc.1.cfg sym).foldl (fun (e : Engine M) (tf : Nat) =>
+      if (i + 1) % tf = 0 then
+        match Jesse.Gen.generateCandle tf (Py.slice cs' (some ((i : Int) - ((tf : Int) - 1))) (some ((i : Int) + 1))) False with
+        | .ok g => addCandle e sym tf g
+        | .error k => fail e k
+      else e) e2
+    (e3, acc.2.set sym cs')
+
+/-- the part of an iteration that does not touch the input arrays: execute the routes, the pending market
+    orders and the daily equity sample -/
+def routesStep (fuel : Nat) (e1 : Engine M) (i : Nat) (boundary : Nat) : Engine M :=
   let e2 := (List.range e1.cfg.routes.length).foldl (fun e r =>
     if e.err.isSome then e else
     let rc := routeOf e r
-    let e' := if rc.tf = 1 ∨ (i + 1) % rc.tf = 0 then executeStrategy u fuel e r else e
+    let e' := if rc.tf = 1 ∨ boundary % rc.tf = 0 then executeStrategy u fuel e r else e
     { e' with w := Acc.updateActive e'.w rc.sym }) e1
   let e3 := executePendingMarketOrders u fuel e2
-  let e4 := if i ≠ 0 ∧ i % 1440 = 0 then saveDaily e3 else e3
-  (e4, res.2)
+  if i ≠ 0 ∧ i % 1440 = 0 then saveDaily e3 else e3
+
+/-- one iteration `i` of `_step_simulator`; `inputs` are the (progressively fixed) per-symbol arrays -/
+def stepAt (fuel : Nat) (inputs : List (List Candle)) (e : Engine M) (i : Nat) : Engine M × List (List Candle) :=
+  if e.err.isSome then (e, inputs) else
+  let e0 := { e with time := ((((inputs.getD 0 [])[i]?).map (·.ts)).getD 0) + 60000 }
+  let res := (List.range e.cfg.nsym).foldl (symStep u fuel i) (e0, inputs)
+  (routesStep u fuel res.1 i (i + 1), res.2)
 
 def finishRun (fuel : Nat) (e : Engine M) : Engine M :=
   let e1 := (List.range e.cfg.routes.length).foldl (fun e r =>
     executePendingMarketOrders u fuel (terminate u fuel e r)) e
   if e1.err.isSome then e1 else saveDaily e1
 
+/-- the first `n` iterations of `_step_simulator` (after the initial equity sample) -/
+def runStepN (fuel : Nat) (inputs : List (List Candle)) (e : Engine M) (n : Nat) : Engine M × List (List Candle) :=
+  let e0 := saveDaily { e with time := (((inputs.getD 0 [])[0]?).map (·.ts)).getD 0 }
+  (List.range n).foldl (fun (acc : Engine M × List (List Candle)) i => stepAt u fuel acc.2 acc.1 i) (e0, inputs)
+
 /-- `_step_simulator` -/
 def runStep (fuel : Nat) (inputs : List (List Candle)) (e : Engine M) : Engine M :=
-  let n := (inputs.getD 0 []).length
-  let e0 := saveDaily { e with time := (((inputs.getD 0 [])[0]?).map (·.ts)).getD 0 }
-  let res := (List.range n).foldl (fun (acc : Engine M × List (List Candle)) i =>
-    stepAt u fuel acc.2 acc.1 i) (e0, inputs)
-  finishRun u fuel res.1
+  finishRun u fuel (runStepN u fuel inputs e (inputs.getD 0 []).length).1
 
 def gcdList (l : List Nat) : Nat := l.foldl Nat.gcd 0
+
+/-- `short_candles[0] = _get_fixed_jumped_candle(previous, short_candles[0])` (only when `i != 0`) -/
+def fixedFirst (cs : List Candle) (i : Nat) : List Candle :=
+  if i ≠ 0 then (match fixedRow cs i with | some c => cs.set i c | none => cs) else cs
+
+/-- the per-symbol part of one iteration of `_skip_simulator` (rows `[i, i+step)`): only the first candle of
+    the chunk is jump-fixed -/
+def symSkip (fuel : Nat) (i step : Nat) (acc : Engine M × List (List Candle)) (sym : Nat) : Engine M × List (List Candle) :=
+  if acc.1.err.isSome then acc else
+  let cs' := fixedFirst (acc.2.getD sym []) i
+  let chunk := Py.slice cs' (some (i : Int)) (some ((i : Int) + step))
+  let e1 := simulateChunk u fuel acc.1 sym chunk
+  let e2 := (tfsOf acc.1.cfg sym).foldl (fun (e : Engine M) (tf : Nat) =>
+    if (i + step) % tf = 0 then
+      match Jesse.Gen.generateCandle tf (Py.slice cs' (some ((i : Int) - (tf : Int) + step)) (some ((i : Int) + step))) False with
+      | .ok g => addCandle e sym tf g
+      | .error k => fail e k
+    else e) e1
+  (e2, acc.2.set sym cs')
 
 /-- one iteration of `_skip_simulator` starting at row `i` with `step` rows -/
 def skipAt (fuel : Nat) (inputs : List (List Candle)) (e : Engine M) (i step : Nat) : Engine M × List (List Candle) :=
   if e.err.isSome then (e, inputs) else
-  let res := (List.range e.cfg.nsym).foldl (fun (acc : Engine M × List (List Candle)) sym =>
-    let (e, inputs) := acc
-    if e.err.isSome then acc else
-    let cs := inputs.getD sym []
-    -- only the first candle of the chunk is jump-fixed
-    let cs' := if i ≠ 0 then (match fixedRow cs i with | some c => cs.set i c | none => cs) else cs
-    let inputs' := inputs.set sym cs'
-    let chunk := Py.slice cs' (some (i : Int)) (some ((i : Int) + step))
-    let e1 := simulateChunk u fuel e sym chunk
-    let e2 := (tfsOf e.cfg sym).foldl (fun (e : Engine M) (tf : Nat) =>
-      if (i + step) % tf = 0 then
-        match Jesse.Gen.generateCandle tf (Py.slice cs' (some ((i : Int) - (tf : Int) + step)) (some ((i : Int) + step))) False with
-        | .ok g => addCandle e sym tf g
-        | .error k => fail e k
-      else e) e1
-    (e2, inputs')) (e, inputs)
-  let e1 := res.1
-  let e2 := (List.range e1.cfg.routes.length).foldl (fun e r =>
-    if e.err.isSome then e else
-    let rc := routeOf e r
-    let e' := if rc.tf = 1 ∨ (i + step) % rc.tf = 0 then executeStrategy u fuel e r else e
-    { e' with w := Acc.updateActive e'.w rc.sym }) e1
-  let e3 := executePendingMarketOrders u fuel e2
-  let e4 := if i ≠ 0 ∧ i % 1440 = 0 then saveDaily e3 else e3
-  (e4, res.2)
+  let res := (List.range e.cfg.nsym).foldl (symSkip u fuel i step) (e, inputs)
+  (routesStep u fuel res.1 i (i + step), res.2)
+
+/-- the first `k` iterations of `_skip_simulator` (chunks of `step` rows; the last chunk of a session may
+    be shorter) after the initial equity sample -/
+def runSkipN (fuel : Nat) (inputs : List (List Candle)) (e : Engine M) (step k : Nat) : Engine M × List (List Candle) :=
+  let n := (inputs.getD 0 []).length
+  let e0 := saveDaily { e with time := (((inputs.getD 0 [])[0]?).map (·.ts)).getD 0 }
+  (List.range k).foldl (fun (acc : Engine M × List (List Candle)) j =>
+    skipAt u fuel acc.2 acc.1 (j * step) (min step (n - j * step))) (e0, inputs)
 
 /-- `_skip_simulator` -/
 def runSkip (fuel : Nat) (inputs : List (List Candle)) (e : Engine M) : Engine M :=
   let n := (inputs.getD 0 []).length
   let step := gcdList ((e.cfg.routes ++ e.cfg.dataRoutes).map (·.tf))
-  let e0 := saveDaily { e with time := (((inputs.getD 0 [])[0]?).map (·.ts)).getD 0 }
-  if step = 0 then fail e0 .Other else
-  let starts := (List.range ((n + step - 1) / step)).map (· * step)
-  let res := starts.foldl (fun (acc : Engine M × List (List Candle)) i =>
-    skipAt u fuel acc.2 acc.1 i (min step (n - i))) (e0, inputs)
-  finishRun u fuel res.1
+  if step = 0 then fail (saveDaily { e with time := (((inputs.getD 0 [])[0]?).map (·.ts)).getD 0 }) .Other else
+  finishRun u fuel (runSkipN u fuel inputs e step ((n + step - 1) / step)).1
 
 end strategy
 
